@@ -149,9 +149,11 @@ def gen_same(ir, go):
 OLD_MUTS = ['asset_class', 'asset_key', 'key_zero', 'dup_key', 'defense_range', 'defense_name', 'defense_int', 'member_unknown', 'member_text',
             'assoc_class', 'shorthand', 'no_attackers', 'no_metadata', 'no_assocs', 'ep_unknown', 'ep_text', 'attacker_key', 'attacker_noname',
             'attacker_emptyname', 'attacker_name_missing', 'version', 'extension', 'scalar_member', 'no_name', 'swapped_fields']
-# NOT drawn - findings about the prelude (notes/NOTES_genexec2_legneo.md): 'name_not_str' (an asset entry `"name": 7`: python_jsonschema_objects
-# accepts it, `nsNewAsset` says ValidationError), 'key_spelling' (asset key "+5" / " 5": `int()` accepts it, `jInt` says ValueError).
-# `mutate_old(d, rnd, kind=...)` still produces them (tools: `/venv/bin/python -m harness.props.c18 findings`).
+OLD_MUTS += ['name_not_str', 'name_null', 'key_spelling']
+# `name_not_str` (an asset entry `"name": 7`: python_jsonschema_objects keeps it as an additional property), `key_spelling` (asset key
+# "+5" / " 5" / "5\t": CPython's `int` accepts it, `String.toInt?` does not): the two findings of notes/NOTES_genexec2_legneo.md,
+# REPAIRED in `PreludeLegacy` (`nsNewAsset`, `jInt` answer `unmodelled` there) - drawn again, counted as not comparable;
+# `name_null` (`"name": null`: the constructor sets nothing, `add_asset` gives the default name) is compared.
 SCAD_MUTS = ['obj_class', 'assoc_unknown_obj', 'ep_unknown_attacker', 'ep_unknown_asset', 'field_wrong', 'dup_obj_id', 'defense_range',
              'defense_unknown', 'empty_evidence', 'two_params', 'ends_swapped', 'attacker_first', 'dup_attacker_id']
 
@@ -164,7 +166,7 @@ def mutate_old(d, rnd, kind=None):
     fields = lambda e: e['association'] if 'association' in e else e
     fnames = lambda e: [f for f in fields(e) if f != 'metaconcept']
     def rekey(dct, old, new): return {(new if k == old else k): v for k, v in dct.items()}
-    if kind in ('asset_class', 'asset_key', 'key_zero', 'key_spelling', 'dup_key', 'defense_range', 'defense_name', 'defense_int', 'shorthand', 'no_name', 'name_not_str'):
+    if kind in ('asset_class', 'asset_key', 'key_zero', 'key_spelling', 'dup_key', 'defense_range', 'defense_name', 'defense_int', 'shorthand', 'no_name', 'name_not_str', 'name_null'):
         if not akeys: return None
         k = rnd.choice(akeys); v = d['assets'][k]
         if kind == 'asset_class': v['metaconcept'] = 'NoSuchClass'
@@ -174,7 +176,7 @@ def mutate_old(d, rnd, kind=None):
             d['assets'] = rekey(d['assets'], k, '0' + str(k))
         elif kind == 'key_spelling':
             if str(k).startswith('-'): return None
-            d['assets'] = rekey(d['assets'], k, rnd.choice(['+', ' ']) + str(k))
+            d['assets'] = rekey(d['assets'], k, rnd.choice(['+' + str(k), ' ' + str(k), str(k) + '\t', '\u0665' + str(k)]))
         elif kind == 'dup_key':
             if str(k).startswith('-'): return None
             d['assets']['00' + str(k)] = dict(v)
@@ -187,7 +189,8 @@ def mutate_old(d, rnd, kind=None):
             v['defenses'][rnd.choice(sorted(v['defenses']))] = 1
         elif kind == 'shorthand': d['assets'][k] = v['metaconcept']
         elif kind == 'no_name': del v['name']
-        elif kind == 'name_not_str': v['name'] = 7
+        elif kind == 'name_not_str': v['name'] = rnd.choice([7, 2.5, True, ['a']])
+        elif kind == 'name_null': v['name'] = None
     elif kind in ('member_unknown', 'member_text', 'assoc_class', 'scalar_member', 'swapped_fields'):
         if not d['associations']: return None
         e = rnd.choice(d['associations'])
